@@ -134,6 +134,8 @@ def test_args(recipe, op):
     if batch or recipe["family"] == "hadamard":
         tb = []
     xs = zoo.rand(op["seed"], *tb, *batch, op["t"], d) * 1.2 - 0.1
+    if recipe.get("one_d") and not tb and not batch and d == 1 and op.get("seed", 0) % 2 == 0:
+        xs = xs.squeeze(-1)  # 1-D test inputs
     if recipe["family"] == "hadamard":
         return (xs, torch.randint(0, recipe["tasks"], (op["t"], 1), generator=zoo.gen(op["seed"] + 9)))
     return (xs,)
